@@ -205,7 +205,10 @@ class PatchLinkage:
 
         patch_ids = list(ref_cat.keys())
         centers = ref_cat.get_centers()
-        radii = ref_cat.get_radii()
+        # a patch must enclose its objects in all catalogs, not just the largest
+        radii = AngularDistances(
+            np.max([cat.get_radii().data for cat in (ref_cat, *other_cats)], axis=0)
+        )
 
         patch_links = dict()
         for patch_id, patch_center, patch_radius in zip(patch_ids, centers, radii):
